@@ -86,6 +86,36 @@ def sine_error(rname, iname, k, phi, a, n, T=0.3):
     return float(np.mean(np.abs(g.data[0] - cellavg_sin(mesh.xf, k, phi, a * T))))
 
 
+def check_sine_reuse(rname, iname, res=None):
+    """a user's convergence study: ONE reconstruction object for the whole study, refinement ladder outside, domains of length 1 and 3 inside
+    (same number of cells, other cell size, k waves per domain); the order must be the design order on both domains"""
+    num = space._recon(rname)
+    ns = (32, 64, 128)
+    k, phi, a, T = 1, 0.7, 1.0, 0.3
+    errs = {1.0: [], 3.0: []}
+    for n in ns:
+        for L in (1.0, 3.0):
+            mesh = space.mesh1.unimesh(ncell=n, length=L)
+            model = space.convection.model(a)
+            disc = space.modeldisc.fvm(model, mesh, num)
+            f = space.field.fdata(model, mesh, [cellavg_sin(mesh.xf / L, k, phi, 0.0)])
+            with np.errstate(all="ignore"), core.time_limit(120.0):
+                g = space.integrators()[iname](mesh, disc).solve(f, 0.2, [T * L])[-1]
+            errs[L].append(float(np.mean(np.abs(g.data[0] - cellavg_sin(mesh.xf / L, k, phi, a * T)))))
+    p = design_order(rname)
+    lo = 1.5 if rname.startswith("muscl") else p - 0.2
+    out = []
+    for L, e in errs.items():
+        order = np.log2(e[-2] / e[-1]) if e[-1] > 0 else np.inf
+        if res is not None:
+            res.evals += len(ns)
+            res.worst("sine-order-shortfall/reused-object", p - order)
+        if not (np.all(np.isfinite(e)) and order >= lo):
+            out.append(("C04/sine/%s/reused-reconstruction-object/order-too-low" % rname.replace(":", "-"),
+                        "%s %s, one reconstruction object for the whole study: domain length %g, L1 errors %r on n=%r, observed order %.2f < %.2f (design %d)" % (rname, iname, L, e, list(ns), order, lo, p)))
+    return out
+
+
 def check_sine(rname, iname, k, phi, a, levels, res=None):
     ns = [32 * k * m for m in levels]
     errs = [sine_error(rname, iname, k, phi, a, n) for n in ns]
@@ -312,6 +342,10 @@ def shard_sine(arg):
         res.nontrivial += 1
         for s, w in check_sine(rname, iname, k, phi, a, levels, res):
             res.violation(s, w, {"kind": "sine", "recon": rname, "integrator": iname, "k": k, "phi": phi, "a": a, "levels": list(levels)})
+    if iname == "rk3ssp":
+        res.nontrivial += 1
+        for s, w in check_sine_reuse(rname, iname, res):
+            res.violation(s, w, {"kind": "sine-reuse", "recon": rname, "integrator": iname})
     res.sample({"recon": rname, "integrator": iname, "k": 2, "phi": 0.7, "a": -0.5, "n_ladder": [64 * m for m in levels]}, cap=1)
     return res
 
@@ -360,6 +394,8 @@ def run(ctx):
 
 
 def replay(case):
+    if case.get("kind") == "sine-reuse":
+        return check_sine_reuse(case["recon"], case["integrator"])
     k = case["kind"]
     if k == "mom":
         return check_moments(case["recon"], case["a"])
